@@ -11,6 +11,8 @@
 import Golib.HMap.Types
 import Golib.Gen.C09
 import Golib.Gen.C09IR
+import Golib.Gen.C09Entry
+import Golib.HMap.EntryTypes
 import Golib.HMap.IR
 
 set_option linter.unusedSectionVars false
@@ -1456,5 +1458,34 @@ theorem StringLinkedSet_enum_interp (e : LEnum K) :
   · exact canonNextL_correct l ((by decide : ∀ l ∈ Gen.C09IR.StringLinkedSet_enumNext, l = canonNextL ∨ l = [ESt.retNextElement]) l hl) e
 
 end interpreted2
+
+/-! ### entry objects (`<Type>LinkedEntry.go`) and the per-element text of the sets (round 4) -/
+
+/-- the regenerated facts about GetKey / GetValue / SetValue / Equals / HashCode / ToString of the ten entry types and the
+    per-key format of the three sets are the table the CodeModel (and the driver's `entryKindOf`) assumes -/
+theorem entry_facts_match : Gen.C09Entry.entryFacts = HMap.entryDescs := by decide
+
+/-- interpreted: the transcribed statements of every `SetValue(v)` mean "store `v` in the cell, return what was there" —
+    the step of `LMap.entrySetValue` on the cell of the key — for every value type and all values -/
+theorem entry_setValue_interp {V : Type} (value v : V) :
+    ∀ e ∈ Gen.C09Entry.entryFacts, e.entry ≠ "" → HMap.interpSetValue e.setValue value v = some (v, value) := by
+  rw [entry_facts_match]
+  intro e he hne
+  simp only [HMap.entryDescs, List.mem_cons, List.mem_nil_iff, or_false] at he
+  rcases he with rfl | rfl | rfl | rfl | rfl | rfl | rfl | rfl | rfl | rfl | rfl | rfl | rfl <;>
+    first
+    | (exfalso; exact hne rfl)
+    | (simp [HMap.interpSetValue, HMap.interpSetValue.go])
+
+/-- interpreted: `Equals` of the regenerated facts, read through `entryKindOf`, compares the value exactly for the four
+    numeric-valued int/long-keyed entry types and the key only for the other six -/
+theorem entry_equals_interp :
+    (Gen.C09Entry.entryFacts.filter (fun e => e.entry != "")).map (fun e => (e.owner, e.equals == "kv", e.getters))
+      = [("LinkedMap", false, "this.key,this.value"), ("IntKeyLinkedMap", false, "this.key,this.value"),
+         ("LongKeyLinkedMap", false, "this.key,this.value"), ("StringKeyLinkedMap", false, "this.key,this.value"),
+         ("IntIntLinkedMap", true, "this.key,this.value"), ("IntFloatLinkedMap", true, "this.key,this.value"),
+         ("LongFloatLinkedMap", true, "this.key,this.value"), ("LongLongLinkedMap", true, "this.key,this.value"),
+         ("StringIntLinkedMap", false, "this.key,this.value"), ("StringLongLinkedMap", false, "this.key,this.value")] := by
+  rw [entry_facts_match]; decide
 
 end C09Gen
